@@ -207,6 +207,7 @@ type Exec struct {
 	top     *Frame
 	inlineStack []*ssa.Function
 	closureBinds map[string]Value // captured variables of the closure whose contract is being applied at a call
+	taint map[string]bool // heap components that were assigned an interior pointer (partial mode): reading them abandons the path
 }
 
 func (x *Exec) m() Mode { return x.vc.mode }
@@ -417,6 +418,9 @@ func (x *Exec) loadLocT(st *State, l *Loc, t types.Type) Value {
 	idx := l.indices()
 	var ls []*Term
 	for _, lf := range m.flatten(t) {
+		if x.taint[l.Prefix+lf.Suffix] {
+			unsupported("read of a component that was assigned an interior pointer (%s)", l.Prefix+lf.Suffix)
+		}
 		c := x.comp(st, l.Prefix+lf.Suffix, x.compSortFor(lf.Sort, len(l.Elems)))
 		ls = append(ls, nestedSelect(c, idx))
 	}
@@ -440,7 +444,22 @@ func (x *Exec) storeLoc(st *State, l *Loc, v Value) {
 		unsupported("whole-array store through an offset array pointer")
 	}
 	if !v.isCanonical() {
-		unsupported("storing a non-canonical pointer/slice (interior pointer) into the heap")
+		if v.K == KPtr && x.top != nil && x.top.fc != nil && x.top.fc.Partial {
+			// partial mode: the cell receives an unknown value and the component is tainted - the engine
+			// cannot represent a pointer into the middle of an object in memory, so nothing may be
+			// concluded from reading this component afterwards (any such read abandons the path), but
+			// code that only builds the collection can be followed further
+			if x.taint == nil {
+				x.taint = map[string]bool{}
+			}
+			for _, lf := range m.flatten(l.T) {
+				x.taint[l.Prefix+lf.Suffix] = true
+			}
+			x.note("abstracted (partial mode): an interior pointer stored into " + l.Prefix + " is replaced by an unknown value; reads of that component abandon the path")
+			v = x.havocValue(st, l.T, "interior")
+		} else {
+			unsupported("storing a non-canonical pointer/slice (interior pointer) into the heap")
+		}
 	}
 	idx := l.indices()
 	lfs := m.flatten(l.T)
